@@ -168,6 +168,23 @@ def table_func(spec, table):
     return lambda b: t[idx(b)]
 
 
+def table_view_func(spec, table, kept):
+    """the same integrand written by a user who KEEPS a table of its values and, when called with one
+    sample, returns a VIEW of that table (basic indexing) - the returned tensor belongs to the function.
+    `kept` receives (table tensor, pristine copy)."""
+    import torch
+    t = torch.tensor([float(F(x)) for x in table], dtype=torch.float64)
+    kept.append((t, t.clone()))
+    idx = index_fn(spec)
+
+    def f(b):
+        i = idx(b)
+        if i.numel() != 1:
+            return t[i]
+        return t[int(i)].view(i.shape)
+    return f
+
+
 def _softmax_fr(row_float_probs):
     return [F(x) for x in row_float_probs]
 
